@@ -405,7 +405,18 @@ func aliasBytesCase(seed uint64) run.Case {
 				x.checkDB("mutation-reaches-db:Watch:result", fmt.Sprintf("change stream event %d overwritten", k))
 			}
 		})
+		// ---- repeated hand-outs of one object; the engine-level API (alias_repeat.go)
+		x.repeated()
+		x.engineAPI()
 		return fmt.Sprintf(`{"bytes":"%016x","docs":%d,"viol":%d,"notes":%q}`, seed, n, len(x.viols), strings.Join(x.notes, ","))
 	})
-	return run.Case{Req: "", Impl: impl, Nontrivial: true, Tags: []string{"bytes-probe"}, Viols: x.viols}
+	tags := []string{"bytes-probe"}
+	seenW := map[string]bool{}
+	for _, v := range x.viols {
+		if !seenW[v.Witness] {
+			seenW[v.Witness] = true
+			tags = append(tags, "w:"+v.Witness) // run.go keeps the first 50 violations only: the classes as tags
+		}
+	}
+	return run.Case{Req: "", Impl: impl, Nontrivial: true, Tags: tags, Viols: x.viols}
 }
